@@ -79,38 +79,47 @@ CORPUS = {
 # ---- stream A: the structured language of Runs/Exits.v ------------------------------------------------
 
 
-def gen_stmt(rng, depth, in_loop, in_fn, ids, in_finally=False):
+def gen_stmt(rng, depth, in_loop, in_fn, ids, in_finally=False, no_throw=False):
     """in_finally: a try statement directly inside a finally block (same frame) is a C01 known deviation
-    (L-Control: one pending-completion slot per frame); the generator keeps out of it"""
+    (L-Control: one pending-completion slot per frame); the generator keeps out of it. no_throw: code that runs
+    (also through calls) while a finally block is active must not let an exception escape that block, for the
+    same reason: the block's pending completion would stay in the slot"""
     r = rng.below(100)
     if in_finally and 68 <= r < 84:
         r = 30
+    if in_finally and r >= 84:
+        # an abrupt exit out of a finally block leaves the block's own pending completion behind in the frame's
+        # single slot (same known deviation): a later FinallyEnd in the frame completes it
+        r = 0
     if depth <= 0 or r < 22:
         ids[0] += 1
         return ("log", ids[0])
     if r < 36:
-        return ("block", gen_list(rng, depth - 1, in_loop, in_fn, ids, in_finally))
+        return ("block", gen_list(rng, depth - 1, in_loop, in_fn, ids, in_finally, no_throw))
     if r < 50:
-        return ("loop", rng.below(3), gen_list(rng, depth - 1, True, in_fn, ids, in_finally))
+        return ("loop", rng.below(3), gen_list(rng, depth - 1, True, in_fn, ids, in_finally, no_throw))
     if r < 62:
-        return ("call", gen_list(rng, depth - 1, False, True, ids))
+        return ("call", gen_list(rng, depth - 1, False, True, ids, False, no_throw or in_finally))
     if r < 68:
-        return ("gen", gen_list(rng, depth - 1, False, True, ids))
+        return ("gen", gen_list(rng, depth - 1, False, True, ids, False, no_throw or in_finally))
     if r < 84:
-        body = gen_list(rng, depth - 1, in_loop, in_fn, ids)
-        handler = gen_list(rng, depth - 1, in_loop, in_fn, ids) if rng.chance(2, 3) else []
-        fin = gen_list(rng, depth - 1, in_loop, in_fn, ids, True) if (rng.chance(1, 2) or not handler) else []
+        body = gen_list(rng, depth - 1, in_loop, in_fn, ids, False, no_throw)
+        handler = gen_list(rng, depth - 1, in_loop, in_fn, ids, False, no_throw) if rng.chance(2, 3) else []
+        fin = gen_list(rng, depth - 1, in_loop, in_fn, ids, True, no_throw) if (rng.chance(1, 2) or not handler) else []
         return ("try", body, handler, fin)
-    exits = ["throw"]
+    exits = [] if no_throw else ["throw"]
     if in_loop:
         exits += ["break", "continue", "break", "continue"]
     if in_fn:
         exits += ["return", "return"]
+    if not exits:
+        ids[0] += 1
+        return ("log", ids[0])
     return (rng.choice(exits),)
 
 
-def gen_list(rng, depth, in_loop, in_fn, ids, in_finally=False):
-    return [gen_stmt(rng, depth, in_loop, in_fn, ids, in_finally) for _ in range(1 + rng.below(3))]
+def gen_list(rng, depth, in_loop, in_fn, ids, in_finally=False, no_throw=False):
+    return [gen_stmt(rng, depth, in_loop, in_fn, ids, in_finally, no_throw) for _ in range(1 + rng.below(3))]
 
 
 def to_coq(s):
